@@ -340,8 +340,9 @@ func removePattern(str, pat string, fromEnd, shortest bool) string {
 	}
 	switch {
 	case fromEnd && shortest:
-		// use .* to get the right-most shortest match
-		expr = ".*(" + expr + ")$"
+		// use .* to get the right-most shortest match;
+		// like the pattern itself, it must be able to cross newlines
+		expr = "(?s).*(" + expr + ")$"
 	case fromEnd:
 		// simple suffix
 		expr = "(" + expr + ")$"
